@@ -10,7 +10,8 @@ import random
 
 from .. import docgen, faults, simfs
 from ..engine import RunResult
-from ..fingerprint import digest, fingerprint, shared_mutables
+from ..fingerprint import digest, shared_mutables
+from ..fingerprint import public_fingerprint as fingerprint
 from ..repo import entrypoint as EP
 from ..repo import model as M
 from ..repo import mws
